@@ -140,6 +140,58 @@ func main() -> int
     print(d5(Shape::Ell(2, 3), {#9})); print(d5(Shape::Rect(2, 3), {#9}));
     0
 }
+""", SHAPES_DECL + """
+func d1(s : Shape, {W} : int, {H} : int) -> int
+{
+    if let (Shape::Rect({PW}, {PH}) = s) { {PW} * 100 + {PH} } else { {W} * 100 + {H} }
+}
+func d2(s : Shape, {W2} : int) -> () -> int
+{
+    let {H2} = {#1};
+    if let (Shape::Rect({PW2}, {PH2}) = s)
+    {
+        let pw0 = {PW2};
+        let ph0 = {PH2};
+        let func () -> int { pw0 * 100 + ph0 }
+    }
+    else
+    {
+        let func () -> int { {W2} * 100 + {H2} }
+    }
+}
+func d3(s : Shape, {N} : int) -> int
+{
+    if let (Shape::Rect({A3}, {B3}) = s) { {A3} + {B3} * 10 }
+    else if let (Shape::Ell({C3}, {D3}) = s) { {C3} * 1000 + {D3} * 100 + {N} }
+    else if let (Shape::Dot = s) { {N} * 3 }
+    else { {N} * 7 }
+}
+func d4(s : Shape, t : Shape, {W4} : int) -> int
+{
+    if let (Shape::Rect({PW4}, ph) = s)
+    {
+        {PW4} + ph
+    }
+    else
+    {
+        if let (Shape::Tri({Q4}, qb, qc) = t) { {Q4} * 100 + qb * 10 + qc } else { {W4} + 5000 }
+    } + {W4} * 100000
+}
+func d5(s : Shape, {W5} : int) -> int
+{
+    let {G5} = {W5} + {#2};
+    let r = if let (Shape::Ell({PW5}, {PH5}) = s) { {PW5} * 10 + {PH5} } else { {W5} * 1000 + {G5} };
+    r * 2 + {G5} + {W5}
+}
+func main() -> int
+{
+    print(d1(Shape::Rect(3, 4), {#3}, {#4})); print(d1(Shape::Ell(5, 6), {#3}, {#4})); print(d1(Shape::Tri(1, 2, 3), {#3}, {#4}));
+    print(d2(Shape::Rect(3, 4), {#5})()); print(d2(Shape::Tri(1, 2, 3), {#5})()); print(d2(Shape::Dot, {#6})());
+    print(d3(Shape::Rect(1, 2), {#7})); print(d3(Shape::Ell(3, 4), {#7})); print(d3(Shape::Tri(5, 6, 7), {#7})); print(d3(Shape::Dot, {#7}));
+    print(d4(Shape::Rect(1, 2), Shape::Tri(3, 4, 5), {#8})); print(d4(Shape::Dot, Shape::Tri(3, 4, 5), {#8})); print(d4(Shape::Ell(8, 9), Shape::Dot, {#8}));
+    print(d5(Shape::Ell(2, 3), {#9})); print(d5(Shape::Rect(2, 3), {#9}));
+    0
+}
 """]},
     {"name": "match-record", "construct": "match with record and item patterns (arms and closures made in arms)",
      "merges": [("PW", "W"), ("PH", "H"), ("QW", "W"), ("QW", "PW"), ("QH", "PH"), ("TC", "PW"), ("PA2", "K2"), ("QA2", "PA2"), ("TA2", "PA2")],
@@ -163,6 +215,34 @@ func m2(s : Shape, {K2} : int) -> () -> int
         Shape::Rect({PA2}, pb) -> let func () -> int { {PA2} * 10 + pb + base };
         Shape::Ell({QA2}, qb) -> let func () -> int { {QA2} * 100 + qb + base };
         Shape::Tri({TA2}, tb, tc) -> let func () -> int { {TA2} + tb + tc + base * 1000 };
+        Shape::Dot -> let func () -> int { {K2} + base };
+    }
+}
+func main() -> int
+{
+    print(m1(Shape::Rect(3, 4), {#1}, {#2})); print(m1(Shape::Ell(5, 6), {#1}, {#2})); print(m1(Shape::Tri(1, 2, 3), {#1}, {#2})); print(m1(Shape::Dot, {#1}, {#2}));
+    print(m2(Shape::Rect(3, 4), {#3})()); print(m2(Shape::Ell(5, 6), {#3})()); print(m2(Shape::Tri(1, 2, 3), {#4})()); print(m2(Shape::Dot, {#4})());
+    0
+}
+""", SHAPES_DECL + """
+func m1(s : Shape, {W} : int, {H} : int) -> int
+{
+    match s
+    {
+        Shape::Rect({PW}, {PH}) -> {PW} * 100 + {PH};
+        Shape::Ell({QW}, {QH}) -> {QW} * 10000 + {QH} * 100 + {H};
+        Shape::Tri({TA}, {TB}, {TC}) -> {W} * 100 + {H} + {TA} * 1000000 + {TB} + {TC};
+        Shape::Dot -> {W} * 7 + {H};
+    }
+}
+func m2(s : Shape, {K2} : int) -> () -> int
+{
+    let base = {K2} * 2;
+    match s
+    {
+        Shape::Rect({PA2}, pb) -> { let a0 = {PA2}; let b0 = pb; let func () -> int { a0 * 10 + b0 + base } };
+        Shape::Ell({QA2}, qb) -> { let a0 = {QA2}; let b0 = qb; let func () -> int { a0 * 100 + b0 + base } };
+        Shape::Tri({TA2}, tb, tc) -> { let a0 = {TA2}; let b0 = tb; let c0 = tc; let func () -> int { a0 + b0 + c0 + base * 1000 } };
         Shape::Dot -> let func () -> int { {K2} + base };
     }
 }
